@@ -86,6 +86,7 @@ type Test struct {
 	Perturb  bool     `json:"perturb,omitempty"`   // schedule perturbation at file-system call sites
 	Yield    bool     `json:"yield,omitempty"`     // yield between the calls of a goroutine
 	NoRecord bool     `json:"norecord,omitempty"`  // race-detector runs: no recording, no synchronisation of the driver's own
+	Adopt    string   `json:"adopt,omitempty"`     // continue on a copy of a golden directory (written by the pinned release)
 	CrashAll bool     `json:"crash_all,omitempty"` // enumerate the crash points of every mutating call
 }
 
@@ -177,6 +178,7 @@ type Runner struct {
 	lastMsg string
 	xqs     [][]Cmp
 	lastArg map[int]sod.Object
+	kept    []json.RawMessage
 	// fault engines
 	pre    *dirSnap
 	fsops  []*vfs.Op
@@ -191,6 +193,11 @@ type ev map[string]interface{}
 
 func (r *Runner) emit(e ev) {
 	r.nev++
+	if KeepDir != "" {
+		if b, err := json.Marshal(e); err == nil {
+			r.kept = append(r.kept, b)
+		}
+	}
 	if err := r.out.Encode(e); err != nil {
 		panic(err)
 	}
@@ -374,10 +381,17 @@ func RunTest(t *Test, out *json.Encoder, workdir string) {
 		panic(err)
 	}
 	defer os.RemoveAll(root)
+	if KeepDir != "" {
+		defer keepGolden(t, root)
+	}
 	r := &Runner{t: t, cfg: t.Cfg, root: root, out: out, slots: map[int]string{}, rev: map[string]int{},
 		seen: map[string]bool{}, used: map[string]map[int]bool{}, qf: t.Fields, lastArg: map[int]sod.Object{}}
 	hookLog = hookLog[:0]
 	r.ghost = append(r.ghost, uuid.NewString())
+	curRunner = r
+	if t.Adopt != "" {
+		r.adopt()
+	}
 	r.emit(ev{"ev": "reset", "id": t.ID})
 	if t.VClock {
 		vtime.Virtual(true)
@@ -389,6 +403,9 @@ func RunTest(t *Test, out *json.Encoder, workdir string) {
 		return
 	}
 	r.emit(r.header(cc))
+	if t.Adopt != "" {
+		r.adoptedTrace()
+	}
 	if len(t.Threads) > 0 {
 		if !r.guard("concurrent", func() { r.runConcurrent() }) {
 			r.guard("close", func() { r.db.Close() })
